@@ -803,7 +803,6 @@ func corpGroups(param string) []corpGroup {
 	} else {
 		g = []corpGroup{
 			{name: "len<=2", lists: short, keysMain: 2, keysOther: 1},
-			{name: "len=3", lists: allLists(3), keysMain: 1, keysOther: -1},
 			{name: "stride len=3", lists: strideLists(3, []int{1, 2, 3, 4, 5, 6, 7, 8}), keysMain: 1, keysOther: 1},
 			{name: "stride len=6", lists: strideLists(6, []int{1, 2, 4}), keysMain: 1, keysOther: 1, long: true},
 			{name: "stride len=6 (2 keys)", lists: strideLists(6, []int{1})[:1], keysMain: 2, keysOther: 2, long: true},
@@ -1405,11 +1404,11 @@ func capList(length, pattern int) []elem {
 	return out
 }
 
-// (n, from) with from+n in {998..1003} for from in {0,1,10,500,990,sum-1,sum}, and four settings beyond
+// (n, from) with from+n in {998..1003} for from in {0,1,500,sum-1,sum}, and four settings beyond
 var capGrid = func() []nf {
 	var g []nf
 	for sum := 998; sum <= 1003; sum++ {
-		for _, f := range []int{0, 1, 10, 500, 990, sum - 1, sum} {
+		for _, f := range []int{0, 1, 500, sum - 1, sum} {
 			g = append(g, nf{sum - f, f})
 		}
 	}
@@ -1772,10 +1771,10 @@ func main() {
 	}
 	c.Rule = "collector-orders: every sort order of 0-3 keys over {score,text,num} x {asc,desc} x {missing first,last} (1885 orders) x every match list up to a length bound over the alphabet score{1,2} x text{x,y,missing} x num{-1.5,2,missing} projected on the attributes the order reads (orders of <=2 keys: 9 letters: length<=3; 6: <=3 quick/<=4 thorough; 3: <=5/<=6; 2: <=6/<=9; orders of 3 keys: 18, 9 and 6 letters: <=2/<=3; 3: <=4/<=5; 2: <=6/<=8) x (n,from) in {0..L+1}^2 plus (11,0), (0,11), (6,5) beyond the store switch (thorough, orders of <=2 keys: all of {0..13}^2); " +
 		"collector-grid: every list of length 0..12 (thorough 0..13) over score{1,2}, of length <=5 (<=6) over text{x,missing} x score{1,2}, thorough also <=8 over score{1,2,3}, x all (n,from) in {0..13}^2 x 2-4 orders; " +
-		"collector-cap: lists of 995..1010 matches (two tie-heavy patterns over score{1,2} x text{x,y,missing}) x 4 orders (score desc, score asc, text asc missing-first + score desc, text desc + score asc) x every (n,from) with from+n in {998..1003} and from in {0,1,10,500,990,sum-1,sum} plus (1001,0),(1,1000),(20,1100),(0,1001); " +
+		"collector-cap: lists of 995..1010 matches (two tie-heavy patterns over score{1,2} x text{x,y,missing}) x 4 orders (score desc, score asc, text asc missing-first + score desc, text desc + score asc) x every (n,from) with from+n in {998..1003} and from in {0,1,500,sum-1,sum} plus (1001,0),(1,1000),(20,1100),(0,1001); " +
 		"multisearch: bluge.MultiSearch over 2 and 3 readers: every 2-document list as 1|1, strided 3-document lists as 1|2, 2|1, 1|1|1 and strided 4-document lists as 2|2, 1|2|1, 3|1 (thorough: all 3-document lists, strided 4 and 5), parts of >=2 documents in two segments, x 2 queries x every order of <=2 keys (lists of 2; longer lists <=1 key) over {score,text,num} x (n,from) in {0..L+1}^2 plus (11,0),(2,9) x After and Before chains of every page size with _id appended, against the reference order over the union (reader order, then order in the reader); " +
 		"e2e-shared-sortorder: After and Before chains of page sizes 1..4 under every order of <=1 key (+_id) on a 5-document corpus where ONE search.SortOrder value is passed to every request of the chain; e2e-boundary-text: the keyword values m, 0x01, 0x00 0x00, the empty string and 0x00 next to a document without the field and a document with value n, in all 6 index orders under the 4 single-key text orders; " +
-		"e2e: corpora over 9 document kinds (orthogonal array over text{x,y,missing} x num{-1.5,2,missing} x date{1960,2020,missing} x body{w, w w, v}): quick = every list of <=2 documents in every segment layout (one batch, every split in two batches, a leading document deleted by a later batch) with every order of <=2 keys over {score,text,num,date} on the two-segment layout and of <=1 key on the others, every list of 3 documents in two segments with orders of <=1 key, 72 strided 3-document and 27 strided 6-document lists in every layout with <=1 key, one 6-document list with <=2 keys; thorough = lists <=2 with <=3 keys on the two-segment layout and <=2 keys on the others, all lists of 3 (<=1 key, two segments), strided lists of 3 (<=2 keys), 4, 5 and 6 (<=1 key, three of them <=2 keys) in every layout; each x 2 queries (match-all: equal scores; body:w: different scores, a proper subset matches) x (n,from) in {0..L+1}^2 plus (11,0),(2,9) x After and Before chains of every page size 1..matches+1 under the order with _id appended (ascending; thorough also descending) x the SortBy([]string) form where one exists; " +
+		"e2e: corpora over 9 document kinds (orthogonal array over text{x,y,missing} x num{-1.5,2,missing} x date{1960,2020,missing} x body{w, w w, v}): quick = every list of <=2 documents in every segment layout (one batch, every split in two batches, a leading document deleted by a later batch) with every order of <=2 keys over {score,text,num,date} on the two-segment layout and of <=1 key on the others, 72 strided 3-document and 27 strided 6-document lists in every layout with <=1 key, one 6-document list with <=2 keys; thorough = lists <=2 with <=3 keys on the two-segment layout and <=2 keys on the others, all lists of 3 (<=1 key, two segments), strided lists of 3 (<=2 keys), 4, 5 and 6 (<=1 key, three of them <=2 keys) in every layout; each x 2 queries (match-all: equal scores; body:w: different scores, a proper subset matches) x (n,from) in {0..L+1}^2 plus (11,0),(2,9) x After and Before chains of every page size 1..matches+1 under the order with _id appended (ascending; thorough also descending) x the SortBy([]string) form where one exists; " +
 		"an evaluation is non-trivial when the expected slice is non-empty and is not simply the first matches in index order (paging requests: when the page is non-empty)"
 	c.Explanation = "bounded-exhaustive enumeration; oracle = stable sort of the matches in index order by the documented key semantics (missing first/last independent of direction, hit order as the last tie-break), window [from, from+n); page concatenation equals the full order with every page full; scores for the end-to-end layer are those the AllMatches collector reports for the same query"
 	c.Assumptions = []string{
@@ -1787,18 +1786,23 @@ func main() {
 	// every enumeration has its own share of the time budget, so that a loaded
 	// machine cuts each of them a little instead of starving the last one
 	only := os.Getenv("VERIF_ONLY")
-	for _, e := range []struct {
+	// besides its own cap every enumeration is bounded by what is left of a global
+	// target (quick 40 s, thorough 9 min), keeping 2 s for each enumeration after it
+	start := time.Now()
+	global := c.PickD(40*time.Second, 9*time.Minute)
+	plan := []struct {
 		name string
 		q, t time.Duration
 	}{
 		{"c09-collector-orders", 11 * time.Second, 4 * time.Minute},
 		{"c09-collector-grid", 6 * time.Second, 90 * time.Second},
 		{"c09-collector-cap", 4 * time.Second, 30 * time.Second},
-		{"c09-e2e", 14 * time.Second, 3 * time.Minute},
-		{"c09-multisearch", 6 * time.Second, 90 * time.Second},
+		{"c09-e2e", 12 * time.Second, 3 * time.Minute},
+		{"c09-multisearch", 7 * time.Second, 90 * time.Second},
 		{"c09-e2e-shared-sortorder", 2 * time.Second, 10 * time.Second},
 		{"c09-e2e-boundary-text", 2 * time.Second, 10 * time.Second},
-	} {
+	}
+	for i, e := range plan {
 		if only != "" && e.name != only && e.name != "c09-"+only {
 			continue
 		}
@@ -1807,10 +1811,17 @@ func main() {
 		switch e.name {
 		case "c09-collector-grid":
 			chunk = 32
-		case "c09-e2e", "c09-multisearch":
+		case "c09-e2e", "c09-multisearch", "c09-collector-cap":
 			chunk = 1
 		}
-		st := explore.Enumerate(explore.EnumConfig{Name: e.name, Param: c.Tier, Budget: c.PickD(e.q, e.t), Chunk: chunk, MaxViol: 1 << 20})
+		b := c.PickD(e.q, e.t)
+		if left := global - time.Since(start) - time.Duration(len(plan)-1-i)*2*time.Second; left < b {
+			b = left
+		}
+		if b < 2*time.Second {
+			b = 2 * time.Second
+		}
+		st := explore.Enumerate(explore.EnumConfig{Name: e.name, Param: c.Tier, Budget: b, Chunk: chunk, MaxViol: 1 << 20})
 		c.AddEnum(st)
 		if os.Getenv("VERIF_KEYS") != "" { // diagnostic: the distinct keys of all violations
 			n := map[string]int64{}
